@@ -67,6 +67,15 @@ def build():
     return os.path.join(h, "target", "debug", "hkverif")
 
 
+def test_module_start(src):
+    """1-based line of the trailing `#[cfg(test)] mod …` (a `#[cfg(test)] use …` / `fn …` near the
+    top of a file is not the test module), or len+1"""
+    for i, l in enumerate(src):
+        if re.match(r"#\[cfg\(test\)\]", l) and i + 1 < len(src) and re.match(r"(pub(\(crate\))? )?mod\b", src[i + 1].strip()):
+            return i + 1
+    return len(src) + 1
+
+
 def corpus_files(pid):
     d = os.path.join(ROOT, "corpus", pid)
     return [os.path.join(d, f) for f in sorted(os.listdir(d)) if f.endswith(".case")] if os.path.isdir(d) else []
@@ -127,7 +136,7 @@ def report(pid, hk, prof):
     for (fn, ln), (cnt, name) in sorted(never.items()):
         if cnt == 0:
             src = srcs.setdefault(fn, open(fn, errors="replace").read().split("\n"))
-            tm = next((i + 1 for i, l in enumerate(src) if re.match(r"\s*#\[cfg\(test\)\]", l)), len(src) + 1)
+            tm = test_module_start(src)
             if ln >= tm:
                 continue
             text = src[ln - 1].strip()[:110] if 0 < ln <= len(src) else ""
@@ -151,7 +160,7 @@ def report(pid, hk, prof):
             continue
         src = open(fn, errors="replace").read().split("\n")
         # drop test modules at the end of the file
-        tm = next((i + 1 for i, l in enumerate(src) if re.match(r"\s*#\[cfg\(test\)\]", l)), len(src) + 1)
+        tm = test_module_start(src)
         u = sorted(x for x in unc if x < tm and x <= len(src) and src[x - 1].strip() and not src[x - 1].strip().startswith("//"))
         runs, start, prev = [], None, None
         for x in u:
